@@ -2,7 +2,8 @@
 # Generates the build overlay (add-only files, guarded by the build tag "verif") from the
 # current /repo sources: one VerifDumpGlobals() per library package. usage: mkoverlay.sh <overlay.json> [dump|sched]
 set -e
-cd /verif
+H="${VERIF_HOME:-/verif}"
+cd "$H"
 export GOFLAGS=-mod=mod GOPROXY=off GOSUMDB=off GOTOOLCHAIN=local
 MODE=${2:-dump}
 mkdir -p .build
@@ -11,7 +12,7 @@ if [ ! -x .build/instr ] || [ tools/instr/main.go -nt .build/instr ]; then
 fi
 OUT=.build/ov_$MODE.$$
 rm -rf "$OUT"; mkdir -p "$OUT"
-.build/instr -repo /repo -out "/verif/$OUT" -overlay "$1" -mode "$MODE" -report ".build/scan_$MODE.json"
+.build/instr -repo "${VERIF_REPO:-/repo}" -out "$H/$OUT" -overlay "$1" -mode "$MODE" -report ".build/scan_$MODE.json"
 # keep only the newest generated directory per mode
 ls -d .build/ov_$MODE.* 2>/dev/null | grep -v "$OUT" | while read d; do
 	# a concurrent build may still be using an older directory: remove those older than 10 minutes
